@@ -342,6 +342,7 @@ pub enum BoardValidationError {
     InvalidCastleRights,
     InvalidEnpassant,
     TooManyPieces,
+    OpponentInCheck,
 }
 
 #[derive(Debug, Clone, Copy, PartialEq, Eq)]
@@ -399,6 +400,28 @@ impl Board {
 
         self.validate_en_passant()?;
         self.validate_castle_rights()?;
+        self.validate_opponent_not_in_check()?;
+
+        Ok(())
+    }
+
+    /// The side that just moved must not have left its king attacked: the side to move
+    /// could capture it, and a board without a king breaks `king_sq`.
+    fn validate_opponent_not_in_check(&self) -> Result<(), BoardValidationError> {
+        let king_sq = self.king_sq(!self.turn);
+        let all = self.raw.all();
+        let attackers = self.raw[self.turn];
+        let queens = self.raw[Piece::Queen];
+
+        let attacks = (chess_lookup::bishop_moves(king_sq, all) & (self.raw[Piece::Bishop] | queens))
+            | (chess_lookup::rook_moves(king_sq, all) & (self.raw[Piece::Rook] | queens))
+            | (chess_lookup::knight_moves(king_sq) & self.raw[Piece::Knight])
+            | (chess_lookup::king_moves(king_sq) & self.raw[Piece::King])
+            | (chess_lookup::pawn_attacks_moves(king_sq, !self.turn) & self.raw[Piece::Pawn]);
+
+        if (attacks & attackers).any() {
+            return Err(BoardValidationError::OpponentInCheck);
+        }
 
         Ok(())
     }
